@@ -2,4 +2,4 @@ From Coq Require Extraction ExtrOcamlBasic.
 From Common Require Import Words.
 From Sha Require Import ShaSpec ShaModel.
 Extraction Language OCaml.
-Extraction "model.ml" anchor init step spec_step.
+Extraction "model.ml" anchor init step spec_step set_count.
